@@ -322,7 +322,7 @@ _NONCANON = ['0', '1', '01', '+1', '-0', '00', ' 1', '1 ', '-1', '-01', '2', '10
 
 
 def _ints_near(model):
-    base = {0, 1, -1, 2, 3, 7}
+    base = {0, 1, -1, 2, -2, 10, -10, -25, 7}
     for v in (model or {}).values():
         if isinstance(v, int) and not isinstance(v, bool) and abs(v) < 10 ** 9:
             base.update({v, v + 1, v - 1})
@@ -334,7 +334,7 @@ def conc_points(nparams, strings=False):
     import itertools
 
     def hook(model, oname):
-        vals = _NONCANON if strings else [str(i) for i in _ints_near(model)][:9]
+        vals = _NONCANON if strings else [str(i) for i in _ints_near(model)][:12]
         for combo in itertools.product(vals, repeat=nparams):
             yield (dict(values=list(combo)),
                    (lambda combo=combo: ([_mkpoint(v) for v in combo], {})))
@@ -367,6 +367,9 @@ for _k, _c in _REG.contracts.items():
         continue
     _ps = [n for n in _c.sorts if n != 'result']
     _kinds = [_c.sorts[n] for n in _ps]
+    if _c.qualname.endswith('standardise') or 'idempotent' in _c.qualname:
+        _c.concretise = conc_points(1, strings=True)
+        continue
     if _kinds and all(k == 'IntegerPoint' for k in _kinds):
         _c.concretise = conc_points(len(_kinds), strings=_k.endswith('lemma_hash_all'))
     elif _kinds == ['IntegerPoint', 'IntegerInterval']:
